@@ -76,6 +76,12 @@ type Ctx struct {
 	// mean allocating a timer and a closure per request.
 	timer *time.Timer
 	armed bool
+
+	// deadline is when MaxResponseTime is up, zero without one. The write loop
+	// holds the Ctx while it writes the request, and RoundTrip cannot hand the
+	// Request back before it lets go, so the writes made for a request must
+	// not outlast it: the deadline goes on the socket for their duration.
+	deadline time.Time
 }
 
 // acquire takes ownership of the Ctx for the connection. It reports false once
@@ -150,6 +156,11 @@ func (ctx *Ctx) resolve(err error) {
 	ctx.resLck.Unlock()
 }
 
+// expired reports whether MaxResponseTime is up for the request.
+func (ctx *Ctx) expired() bool {
+	return !ctx.deadline.IsZero() && !time.Now().Before(ctx.deadline)
+}
+
 // fireTimeout runs when MaxResponseTime is up.
 func (ctx *Ctx) fireTimeout() {
 	// resolve rather than a bare send: the stream may have been answered
@@ -214,6 +225,7 @@ func acquireCtx(req *fasthttp.Request, res *fasthttp.Response) *Ctx {
 	ctx.resolved = false
 	ctx.finished = false
 	ctx.armed = false
+	ctx.deadline = time.Time{}
 
 	ctx.conn.Store(nil)
 
@@ -399,6 +411,7 @@ func (cl *Client) roundTripOnce(req *fasthttp.Request, res *fasthttp.Response) e
 
 	if cl.opts.MaxResponseTime > 0 {
 		ctx.armed = true
+		ctx.deadline = time.Now().Add(cl.opts.MaxResponseTime)
 		ctx.timer.Reset(cl.opts.MaxResponseTime)
 	}
 
